@@ -9,6 +9,7 @@ from ..gen import J, JI
 from . import lincommon as lc
 
 PROP = "C11"
+HOSTILE = ("scale",)
 MONITORS = ("WF", "DENS", "CACHE")
 ANCHORS = [("conditional.py", "ConditionalGaussianPDF.set_y"),
            ("factor.py", "ConjugateFactor.product"),
